@@ -142,3 +142,58 @@ package shellfuncsfile
 //@     invariant rest_untouched: forall(j, i <= j && j < len(lines), lines[j] == pre("2", lines[j]))
 //@     invariant stage: nDel == 1 && nSort == 1 && nCompact == 1 && nExec == 0
 //@   ensures rolled_once: nExec == 1
+
+// ---- Perl scripts as shell functions (C16)
+
+// cleanPerl: the program text is the trimmed script with the maximal run of
+// comment lines at its very top blanked (line count preserved, every other
+// line untouched), re-joined with a trailing newline; the lead comments are
+// that run minus its initial #! / bare # lines.
+//@ func cleanPerl(rawPerl) (leadComments, perl)
+//@   props C16
+//@   ghost nJoin int = 0
+//@   ghost trimmed string = ""
+//@   ghost nTrim int = 0
+//@   ghost nSplit int = 0
+//@   ghost nBlank int = 0
+//@   ghost brk bool = false
+//@   on call strings.TrimSpace(x) (y): assert(x == rawPerl && nTrim == 0, "surrounding_whitespace_trimmed"); trimmed = y; nTrim++
+//@   on call strings.Split(x, sep) (y): assert(nTrim == 1 && x == trimmed && sep == "\n" && nSplit == 0, "split_into_lines"); nSplit++
+//@   before "break LOOP": nBlank = i; brk = true
+//@   on call strings.Join(x, sep) (y): assert(sep == "\n" && nJoin < 2, "joined_with_newlines"); if nJoin == 1 { if !brk { nBlank = len(lines) }; assert(x == lines && 0 <= nBlank && nBlank <= len(lines) && forall(j, 0 <= j && j < nBlank, (lines[j] == "" && strings.HasPrefix(pre("3", lines[j]), "#")) || (lines[j] == "\n" && pre("3", lines[j]) == "\n")) && forall(j, nBlank <= j && j < len(lines), lines[j] == pre("3", lines[j])) && (nBlank == len(lines) || (!strings.HasPrefix(pre("3", lines[nBlank]), "#") && pre("3", lines[nBlank]) != "\n")), "leading_comment_run_blanked_everything_else_untouched") }; nJoin++
+//@   loop 1 counter k
+//@     invariant own_array: !sameArray(leadCommentLines, lines)
+//@     invariant run_so_far: len(leadCommentLines) == k && k <= len(lines) && forall(j, 0 <= j && j < k, leadCommentLines[j] == lines[j] && strings.HasPrefix(lines[j], "#")) && nJoin == 0 && nTrim == 1 && nSplit == 1
+//@   loop 2 counter i
+//@     invariant skipping: 0 <= start && start <= i && start <= len(leadCommentLines) && nJoin == 0
+//@   loop 3 counter i
+//@     invariant blanked_so_far: !brk && nJoin == 0 && forall(j, 0 <= j && j < i, (lines[j] == "" && strings.HasPrefix(pre("3", lines[j]), "#")) || (lines[j] == "\n" && pre("3", lines[j]) == "\n")) && forall(j, i <= j && j < len(lines), lines[j] == pre("3", lines[j]))
+//@   ensures empty_is_empty: imp(len(rawPerl) == 0, leadComments == "" && perl == "")
+
+// FromPerl: for every script the result is perlTemplate applied to the
+// function name (base name without extension), the lead comments and the
+// uuencoded program text with ' and \ replaced by s and b - uniformly.
+//@ func FromPerl(name, r) (res, err)
+//@   props C16
+//@   ghost data []byte = nil
+//@   ghost rdErr bool = false
+//@   ghost lead string = ""
+//@   ghost perl string = ""
+//@   ghost nClean int = 0
+//@   ghost enc []byte = nil
+//@   ghost nEnc int = 0
+//@   ghost t1 string = ""
+//@   ghost nTrim int = 0
+//@   ghost r1 string = ""
+//@   ghost r2 string = ""
+//@   ghost nRepl int = 0
+//@   ghost nExec int = 0
+//@   ghost execErr bool = false
+//@   on call io.ReadAll(rr) (b, e): assert(rr == r, "slurps_the_script"); data = b; rdErr = e != nil
+//@   on call cleanPerl(raw) (lc, p): assert(!rdErr && raw == string(data) && nClean == 0, "cleans_the_whole_script"); lead = lc; perl = p; nClean++
+//@   on call uu.AppendEncode(dst, src) (out): assert(nClean == 1 && len(dst) == 0 && string(src) == perl && nEnc == 0, "uuencodes_exactly_the_cleaned_program_text"); enc = out; nEnc++
+//@   on call strings.TrimSpace(x) (y): assert(nEnc == 1 && x == string(enc) && nTrim == 0, "trailing_newline_of_the_encoding_removed"); t1 = y; nTrim++
+//@   on call strings.ReplaceAll(a, o, n) (y): if nRepl == 0 { assert(nTrim == 1 && a == t1 && o == singleQuote && n == safeSingleQuote, "single_quotes_become_s") ; r1 = y } else { assert(nRepl == 1 && a == r1 && o == backslash && n == safeBackslash, "backslashes_become_b"); r2 = y }; nRepl++
+//@   on call template.Template.Execute(t, w, d) (e): assert(t == perlTemplate && nRepl == 2 && mapStr(d, "FuncName") == strings.TrimSuffix(filepath.Base(name), filepath.Ext(name)) && mapStr(d, "LeadComments") == lead && mapStr(d, "PerlUU") == r2 && boxes(w, ret), "template_gets_name_lead_comments_and_encoded_text"); execErr = e != nil; nExec++
+//@   ensures read_error_reported: imp(rdErr, err != nil)
+//@   ensures uniform_template: imp(!rdErr && !execErr, err == nil && nExec == 1)
